@@ -144,6 +144,59 @@ def listed_combo_accepted(rid, out, ci, v0, v1, v2, v3, v4, v5):
     return bool(got == exp) or fail("value")
 
 
+SPECIALS = [None, 0, False, "", (), [], 0.0]
+
+
+def run_special(sel, a, mode):
+    """a diamond whose shared producer returns a special value (None, 0, False, empty containers) when a == 0:
+    it is still a value like any other - evaluated once, routed to both consumers, present in full_output"""
+    from pipefunc import PipeFunc, Pipeline
+
+    L.reset()
+    sel = L.concretize(sel, 0, len(SPECIALS) - 1)
+    mode = L.concretize(mode, 0, 2)
+    sp = SPECIALS[sel]
+    log = []
+
+    def f(a):
+        log.append("f")
+        return sp if a == 0 else a
+
+    def g(b):
+        log.append("g")
+        return 1 if b is None else (2 if not b else 3)
+
+    def h(b):
+        log.append("h")
+        return 5 if b is None else (6 if not b else 7)
+
+    def k(c, d, b):
+        log.append("k")
+        return 10 * c + d + (100 if b is None else 0)
+
+    with NoTracing():
+        p = Pipeline([PipeFunc(f, "b"), PipeFunc(g, "c"), PipeFunc(h, "d"), PipeFunc(k, "e")])
+        runt.warm(p)
+    eb = sp if a == 0 else a
+    ec = 1 if eb is None else (2 if not eb else 3)
+    ed = 5 if eb is None else (6 if not eb else 7)
+    exp = 10 * ec + ed + (100 if eb is None else 0)
+    if mode == 0:
+        got = p("e", a=a)
+    elif mode == 1:
+        got = p.run("e", kwargs={"a": a})
+    else:
+        full = p.run("e", kwargs={"a": a}, full_output=True)
+        got = full["e"]
+        if not (type(full["b"]) is type(eb) and full["b"] == eb and full["c"] == ec and full["d"] == ed):
+            return fail("full_output does not hold the intermediate values of the evaluation")
+    if not (got == exp):
+        return fail("value differs from the composition")
+    if sorted(log) != ["f", "g", "h", "k"] or log[0] != "f" or log[-1] != "k":
+        return fail("functions were not run exactly once, dependencies first")
+    return True
+
+
 CANARIES = {}
 
 
@@ -217,6 +270,17 @@ def obligations(tier):
             f"H.listed_combo_accepted('R3', 'z', ci, {VARGS})",
             timeout=120,
             bounds="R3: every combination listed by the real arg_combinations('z') is called (region of known finding F18)",
+        )
+    )
+    obs.append(
+        Ob(
+            "run_special",
+            [("sel", "int"), ("a", "int"), ("mode", "int")],
+            [f"0 <= sel < {len(SPECIALS)}", "0 <= mode <= 2"],
+            "H.run_special(sel, a, mode)",
+            timeout=120,
+            bounds="diamond with a third edge whose shared producer returns None / 0 / False / '' / () / [] / 0.0 when a == 0 (a unbounded): pipeline(...), run, "
+            "run(full_output=True): composed value, every function exactly once, intermediates present",
         )
     )
     return obs
